@@ -1,7 +1,7 @@
 #!/bin/sh
 # usage: tools/run_all.sh [quick|thorough]  -- runs every check once, prints verdict and wall time
 T=${1:-quick}
-cd /verif
+cd "$(dirname "$0")/.."
 for p in C01 C02 C03 C04 C05 C06 C07 C08 C09 C10 C11 C12 C13 C14 C15 C16 C17 C18 C19 C20; do
   s=$(date +%s); timeout ${TMO:-3600} ./check $p --tier $T > /tmp/all_$p.out 2>&1; rc=$?; e=$(date +%s)
   echo "$p rc=$rc $((e-s))s $(grep -c KNOWN-FINDING /tmp/all_$p.out) known | $(grep -E 'OK property|VIOLATION|INCONCLUSIVE' /tmp/all_$p.out | head -2 | cut -c1-160 | tr '\n' ' ')"
